@@ -68,6 +68,11 @@ func (ex *exec) stdModel(st *State, key string, fn *types.Func, recv Value, args
 			return Tuple{Extract(127, 64, p), Extract(63, 0, p)}, true
 		}
 		prod := IntMul(x, y)
+		if y.IsConst() {
+			ex.mulLog = append(ex.mulLog, mulRec{x, y})
+		} else if x.IsConst() {
+			ex.mulLog = append(ex.mulLog, mulRec{y, x})
+		}
 		if _, hi, ok := Range(prod); ok && hi.Cmp(mask(64)) <= 0 {
 			return Tuple{IntC64(0), prod}, true
 		}
